@@ -1,1 +1,257 @@
-//! placeholder
+//! Exact rational arithmetic over BigInt for the floating-point oracles. Every finite float
+//! is a dyadic rational, so inputs convert exactly; results convert back with <= 1 ulp error.
+use num_bigint::{BigInt, Sign};
+use num_integer::Integer;
+use num_traits::{One, Signed, ToPrimitive, Zero};
+use std::cmp::Ordering;
+use std::ops::{Add, Div, Mul, Neg, Sub};
+
+#[derive(Clone, Debug, PartialEq, Eq)]
+pub struct Rat {
+    pub n: BigInt,
+    pub d: BigInt, // > 0
+}
+
+impl Rat {
+    pub fn new(n: BigInt, d: BigInt) -> Rat {
+        assert!(!d.is_zero(), "zero denominator");
+        let (mut n, mut d) = if d.is_negative() { (-n, -d) } else { (n, d) };
+        let g = n.gcd(&d);
+        if !g.is_one() && !g.is_zero() {
+            n = n / &g;
+            d = d / &g;
+        }
+        Rat { n, d }
+    }
+    pub fn zero() -> Rat {
+        Rat { n: BigInt::zero(), d: BigInt::one() }
+    }
+    pub fn one() -> Rat {
+        Rat { n: BigInt::one(), d: BigInt::one() }
+    }
+    pub fn from_i(i: i128) -> Rat {
+        Rat { n: BigInt::from(i), d: BigInt::one() }
+    }
+    pub fn from_u(i: usize) -> Rat {
+        Rat { n: BigInt::from(i), d: BigInt::one() }
+    }
+    pub fn from_big(n: BigInt) -> Rat {
+        Rat { n, d: BigInt::one() }
+    }
+    /// exact value of a finite f64
+    pub fn from_f64(x: f64) -> Rat {
+        assert!(x.is_finite(), "Rat::from_f64({})", x);
+        if x == 0.0 {
+            return Rat::zero();
+        }
+        let bits = x.to_bits();
+        let sign = if bits >> 63 == 1 { -1i64 } else { 1 };
+        let e = ((bits >> 52) & 0x7ff) as i64;
+        let m = bits & ((1u64 << 52) - 1);
+        let (mant, exp) = if e == 0 { (m, -1074i64) } else { (m | (1u64 << 52), e - 1075) };
+        let mut n = BigInt::from(mant) * BigInt::from(sign);
+        let mut d = BigInt::one();
+        if exp >= 0 {
+            n <<= exp as usize;
+        } else {
+            d <<= (-exp) as usize;
+        }
+        Rat::new(n, d)
+    }
+    pub fn from_f32(x: f32) -> Rat {
+        Rat::from_f64(x as f64)
+    }
+    pub fn is_zero(&self) -> bool {
+        self.n.is_zero()
+    }
+    pub fn is_negative(&self) -> bool {
+        self.n.is_negative()
+    }
+    pub fn abs(&self) -> Rat {
+        Rat { n: self.n.abs(), d: self.d.clone() }
+    }
+    pub fn recip(&self) -> Rat {
+        Rat::new(self.d.clone(), self.n.clone())
+    }
+    pub fn pow(&self, p: u32) -> Rat {
+        Rat { n: num_traits::pow(self.n.clone(), p as usize), d: num_traits::pow(self.d.clone(), p as usize) }
+    }
+    /// nearest-ish f64 (error <= 1 ulp; exact when representable)
+    pub fn to_f64(&self) -> f64 {
+        if self.n.is_zero() {
+            return 0.0;
+        }
+        let neg = self.n.is_negative();
+        let n = self.n.abs();
+        let nb = n.bits() as i64;
+        let db = self.d.bits() as i64;
+        // scale so that the quotient has about 64 significant bits
+        let shift = 64 - (nb - db);
+        let q = if shift >= 0 { (n << shift as usize) / &self.d } else { n / (&self.d << (-shift) as usize) };
+        // q * 2^-shift ; q has <= 65 bits: take the top 64 into a u64 and let the cast round
+        let qb = q.bits() as i64;
+        let extra = (qb - 64).max(0);
+        let top: u64 = (q >> extra as usize).to_u64().unwrap();
+        let v = ldexp(top as f64, (extra - shift) as i32);
+        if neg {
+            -v
+        } else {
+            v
+        }
+    }
+    pub fn to_f64_up_abs(&self) -> f64 {
+        // an f64 that is >= |self| (used for error bounds)
+        let v = self.abs().to_f64();
+        v * (1.0 + 4.0 * f64::EPSILON) + f64::MIN_POSITIVE
+    }
+    pub fn floor(&self) -> BigInt {
+        self.n.div_floor(&self.d)
+    }
+    pub fn ceil(&self) -> BigInt {
+        -((-&self.n).div_floor(&self.d))
+    }
+    pub fn max(a: Rat, b: Rat) -> Rat {
+        if a >= b {
+            a
+        } else {
+            b
+        }
+    }
+    /// square root as f64 with relative error <= 4 ulp (via f64 sqrt of the rounded value)
+    pub fn sqrt_f64(&self) -> f64 {
+        self.to_f64().sqrt()
+    }
+}
+
+pub fn ldexp(x: f64, e: i32) -> f64 {
+    let mut e = e;
+    let mut v = x;
+    while e > 1000 {
+        v *= 2f64.powi(1000);
+        e -= 1000;
+    }
+    while e < -1000 {
+        v *= 2f64.powi(-1000);
+        e += 1000;
+    }
+    v * 2f64.powi(e)
+}
+
+pub fn pow2(e: i32) -> f64 {
+    // 2^e without overflow/underflow surprises for |e| up to ~2200
+    let mut e = e;
+    let mut v = 1.0f64;
+    while e > 1000 {
+        v *= 2f64.powi(1000);
+        e -= 1000;
+    }
+    while e < -1000 {
+        v *= 2f64.powi(-1000);
+        e += 1000;
+    }
+    v * 2f64.powi(e)
+}
+
+impl PartialOrd for Rat {
+    fn partial_cmp(&self, o: &Rat) -> Option<Ordering> {
+        Some(self.cmp(o))
+    }
+}
+impl Ord for Rat {
+    fn cmp(&self, o: &Rat) -> Ordering {
+        (&self.n * &o.d).cmp(&(&o.n * &self.d))
+    }
+}
+
+impl<'a> Add<&'a Rat> for &'a Rat {
+    type Output = Rat;
+    fn add(self, o: &Rat) -> Rat {
+        if self.d == o.d {
+            Rat::new(&self.n + &o.n, self.d.clone())
+        } else {
+            Rat::new(&self.n * &o.d + &o.n * &self.d, &self.d * &o.d)
+        }
+    }
+}
+impl<'a> Sub<&'a Rat> for &'a Rat {
+    type Output = Rat;
+    fn sub(self, o: &Rat) -> Rat {
+        if self.d == o.d {
+            Rat::new(&self.n - &o.n, self.d.clone())
+        } else {
+            Rat::new(&self.n * &o.d - &o.n * &self.d, &self.d * &o.d)
+        }
+    }
+}
+impl<'a> Mul<&'a Rat> for &'a Rat {
+    type Output = Rat;
+    fn mul(self, o: &Rat) -> Rat {
+        Rat::new(&self.n * &o.n, &self.d * &o.d)
+    }
+}
+impl<'a> Div<&'a Rat> for &'a Rat {
+    type Output = Rat;
+    fn div(self, o: &Rat) -> Rat {
+        assert!(!o.n.is_zero(), "Rat division by zero");
+        Rat::new(&self.n * &o.d, &self.d * &o.n)
+    }
+}
+impl Neg for Rat {
+    type Output = Rat;
+    fn neg(self) -> Rat {
+        Rat { n: -self.n, d: self.d }
+    }
+}
+impl Add for Rat {
+    type Output = Rat;
+    fn add(self, o: Rat) -> Rat {
+        &self + &o
+    }
+}
+impl Sub for Rat {
+    type Output = Rat;
+    fn sub(self, o: Rat) -> Rat {
+        &self - &o
+    }
+}
+impl Mul for Rat {
+    type Output = Rat;
+    fn mul(self, o: Rat) -> Rat {
+        &self * &o
+    }
+}
+impl Div for Rat {
+    type Output = Rat;
+    fn div(self, o: Rat) -> Rat {
+        &self / &o
+    }
+}
+
+pub fn sum<'a, I: IntoIterator<Item = &'a Rat>>(it: I) -> Rat {
+    let mut acc = Rat::zero();
+    for x in it {
+        acc = &acc + x;
+    }
+    acc
+}
+
+pub fn sign_of(b: &BigInt) -> i32 {
+    match b.sign() {
+        Sign::Minus => -1,
+        Sign::NoSign => 0,
+        Sign::Plus => 1,
+    }
+}
+
+#[cfg(test)]
+mod tests {
+    use super::*;
+    #[test]
+    fn roundtrip() {
+        for &x in &[0.1, 1.0, -3.5, 1e300, 1e-300, 5e-324, 0.3333333333333333, 123456789.123456789] {
+            assert_eq!(Rat::from_f64(x).to_f64(), x);
+        }
+        let third = Rat::new(BigInt::from(1), BigInt::from(3));
+        assert!((third.to_f64() - 1.0 / 3.0).abs() <= f64::EPSILON / 4.0);
+    }
+}
